@@ -115,7 +115,12 @@ ODD_IDS = ["it's", 'q"q', "r \u00e9v", "A.B", "x_1", "\u65e5\u672c", "sp ace", "
 
 def gen_rev_id(rng, taken):
     while True:
-        if rng.random() < 0.15:
+        r0 = rng.random()
+        if taken and r0 < 0.06:
+            # a different id that differs from a taken one only in punctuation (rel.2024.1 / rel_2024_1)
+            base = rng.choice(sorted(taken))
+            s = base.replace(".", "_") if "." in base else base.replace("_", ".") if "_" in base else base + ".1"
+        elif rng.random() < 0.15:
             s = rng.choice(ODD_IDS) + "".join(rng.choice("0123456789abcdef") for _ in range(rng.choice([0, 2, 4])))
         else:
             s = "".join(rng.choice("0123456789abcdef") for _ in range(rng.choice([4, 5, 6, 8, 12])))
@@ -1058,6 +1063,15 @@ BATTERY = [
         {"kind": "merge", "rev_id": "d2d2", "head": ["b2b2", "c2c2"]},
     ]),
     ({"timezone": "Mars/Phobos"}, [{"rev_id": "a3a3"}]),
+    # different ids that differ only in punctuation, same message (and none): each keeps its own file
+    ({}, [
+        {"rev_id": "rel.2024.1", "head": "base", "message": "release"},
+        {"rev_id": "rel_2024_1", "head": "rel.2024.1", "message": "release"},
+        {"rev_id": "v1.0", "head": "rel_2024_1"},
+        {"rev_id": "v1_0", "head": "v1.0"},
+        {"rev_id": "v1 0", "head": "v1_0"},
+        {"kind": "merge", "rev_id": "v1,0", "head": ["v1 0", "base"], "message": "release"},
+    ]),
     # a sourceless directory that still holds its sources and the byte code Python cached for them; dotted revision ids
     # (version numbers) put dots into the file names
     ({"sourceless": True, "bytecode": True}, [
